@@ -1766,6 +1766,15 @@ func (p *parser) primaryExpression() (Node, error) {
 		if err := p.advance(); err != nil {
 			return nil, err
 		}
+
+		if isProjectNode(node) {
+			// parentheses end a projection: a following .field applies to
+			// the projected array, not to each element
+			node = &PipeNode{
+				Left:  node,
+				Right: CurrentNode{},
+			}
+		}
 	case lexer.OpenBraceToken:
 		if err := p.advance(); err != nil {
 			return nil, err
